@@ -88,7 +88,7 @@ PROPS['C13'] = {
             'resize(n, v) with an own element (with and without reallocation), push(move(own element)), stack push(top()), resize(n, T(x)) with an rvalue, '
             'self-swap, near-copies compared with ==; nested owners node{id, vector<node>} with kids = kids[k].kids (copy, move), push of an own element, '
             'assignment of a container to a vector owned by one of its elements (model: deep copy taken before the call).',
-    'required_tags': ['kind-%d' % k for k in range(24)] + ['alias-arg-realloc', 'alias-arg-in-place', 'resize-rvalue-multi', 'sv-self-swap-inline', 'assign-from-owned-copy', 'assign-from-owned-move', 'stack-push-top', 'equal-but-not-bytewise', 'grew-then-shrank', 'pair-op-nonempty', 'splice-nonempty', 'sv-swap-inline-heap', 'sv-move-inline'],
+    'required_tags': ['kind-%d' % k for k in range(25)] + ['owned-push_front-nonempty', 'owned-insert-middle', 'append-own-owner', 'alias-arg-realloc', 'alias-arg-in-place', 'resize-rvalue-multi', 'sv-self-swap-inline', 'assign-from-owned-copy', 'assign-from-owned-move', 'stack-push-top', 'equal-but-not-bytewise', 'grew-then-shrank', 'pair-op-nonempty', 'splice-nonempty', 'sv-swap-inline-heap', 'sv-move-inline'],
     'min_cases': {'quick': 20000, 'thorough': 400000},
     'level_text': 'generated operation histories against std::vector/std::deque reference sequences, compared after every operation; held on everything generated',
     'level_note': 'trusts the std containers as reference, ASan+UBSan and the exact-size tracking allocator for the own-storage clause; the state of a moved-from container is not asserted, it is only required to stay readable',
@@ -490,3 +490,17 @@ PROPS['C19']['runs'].append(gcc_run('printf_diff', 80000, [30, 60, 120]))
 PROPS['C20']['runs'].append(gcc_run('parsers_fuzz', 40000, [30, 60, 120]))
 for _p in ('C01', 'C02', 'C03'):
     PROPS[_p]['runs'].append(gcc_run('slab_seq', 8000, [60, 120, 250]))
+
+# ---- classes added after the fifth seeding round
+PROPS['C14']['required_tags'] += ['alias-battery', 'key-inside-moved-value', 'remove-by-entry-key', 'insert-lvalue-from-map'] + ['keyzoo-%d' % k for k in range(5)]
+PROPS['C15']['required_tags'] += ['wide-battery', 'to_number-all-types']
+PROPS['C17']['required_tags'] += ['extra-4', 'extra-5', 'extra-6', 'extra-7', 'tuple-6', 'emplace-over-engaged', 'emplace-same-alternative']
+PROPS['C16']['required_tags'] += ['unique_ptr-reentrant', 'unique_ptr-polymorphic']
+PROPS['C18']['required_tags'] += ['shift-huge']
+PROPS['C07']['required_tags'] += ['universe-all-negative', 'universe-straddles-zero']
+PROPS['C12']['required_tags'] += ['misuse-refused', 'sched-mode-1', 'sched-mode-2']
+PROPS['C20']['required_tags'] += ['long-literal-run', 'cmdline-null-callback-table']
+PROPS['C19']['required_tags'] += ['fmt-stored-object']
+PROPS['C10']['required_tags'] += ['sched-mode-1', 'sched-mode-2']
+PROPS['C11']['required_tags'] += ['sched-mode-1', 'sched-mode-2']
+PROPS['C05']['required_tags'] += ['sched-mode-1', 'sched-mode-2']
